@@ -97,7 +97,7 @@ def flight_keys() -> Set[str]:
 # request generator: link-free DAGs over one root group per component
 
 
-def gen_spec(rng: Any, max_feats: int = 8, frameworks: Sequence[str] = ("pa",), allow_options: bool = True, allow_multi_fw: bool = False) -> Dict[str, Any]:
+def gen_spec(rng: Any, max_feats: int = 8, frameworks: Sequence[str] = ("pa",), allow_options: bool = True, allow_multi_fw: bool = False, single_parent: bool = False) -> Dict[str, Any]:
     """A spec is JSON: {"roots":[{"name","cols":{col:[vals]},"fw"}], "groups":[{"name","fw","features":{f:{"parents":[..],"expr":..}}}],
     "request":[{"name","options":{}}]}.  One root group; derived groups depend on root columns and on each other."""
     nrows = rng.randint(1, 4)
@@ -118,7 +118,7 @@ def gen_spec(rng: Any, max_feats: int = 8, frameworks: Sequence[str] = ("pa",), 
         for _ in range(nf):
             fname = f"d{uid}_{k}"
             k += 1
-            np_ = rng.choice([1, 1, 2, 2, 3])
+            np_ = 1 if single_parent else rng.choice([1, 1, 2, 2, 3])
             # parents: bias towards recent features (chains), same group (levels), and shared parents (diamonds)
             pool = avail
             parents = []
@@ -283,33 +283,38 @@ def export_plan(session: Any) -> Dict[str, Any]:
 
 
 def canon_plan(exp: Dict[str, Any]) -> Any:
-    """Label-based canonical form (independent of uuids and of the order of independent steps)."""
+    """Label-based canonical form, independent of uuids, of the order of independent steps and of *which* uuid of a
+    producing step a requirement names: every step gets a label built from stable names, every required uuid is replaced
+    by the label of the step that produces it (a set), and the steps are sorted."""
+    steps = exp["steps"]
     names = exp["names"]
+    prod: Dict[int, int] = {}
+    for i, st in enumerate(steps):
+        for u in st["outs"]:
+            prod[u] = i
+    memo: Dict[int, str] = {}
 
-    def lab(u: int) -> str:
-        return names.get(str(u), "#")
-
-    # labels for non-feature uuids (tfs / join / link): by the producing step's description
-    prod: Dict[int, str] = {}
-    for st in exp["steps"]:
-        if st["kind"] == "tfs":
-            for u in st["outs"]:
-                prod[u] = f"tfs:{st['from']}>{st['to']}:" + ",".join(sorted(lab(r) for r in st["req"] if str(r) in names))
-        if st["kind"] == "join":
-            for u in st["outs"]:
-                prod[u] = f"join:{st['jointype']}:{st['left']}<{st['right']}:" + ",".join(sorted(lab(x) for x in st["left_uuids"])) + "|" + ",".join(sorted(lab(x) for x in st["right_uuids"]))
-
-    def lab2(u: int) -> str:
-        return names.get(str(u)) or prod.get(u) or "?"
+    def label(i: int, depth: int = 0) -> str:
+        if i in memo:
+            return memo[i]
+        st = steps[i]
+        if st["kind"] == "fg":
+            lab = f"fg:{st['group']}:{st['fw']}:" + ",".join(st["features"])
+        elif depth > 6:
+            lab = st["kind"]
+        elif st["kind"] == "tfs":
+            lab = f"tfs:{st['from']}>{st['to']}:[" + "|".join(sorted({label(prod[r], depth + 1) for r in st["req"] if r in prod and steps[prod[r]]["kind"] == "fg"})) + "]"
+        else:
+            lu = sorted({names.get(str(x), "?") for x in st["left_uuids"]})
+            ru = sorted({names.get(str(x), "?") for x in st["right_uuids"]})
+            lab = f"join:{st['jointype']}:{st['left']}<{st['right']}:" + ",".join(lu) + "|" + ",".join(ru)
+        memo[i] = lab
+        return lab
 
     out = []
-    for st in exp["steps"]:
-        if st["kind"] == "fg":
-            out.append(["fg", st["group"], st["fw"], st["features"], sorted(lab2(r) for r in st["req"]), st["result"]])
-        elif st["kind"] == "tfs":
-            out.append(["tfs", st["from"], st["to"], sorted(lab2(r) for r in st["req"])])
-        else:
-            out.append(["join", st["jointype"], st["left"], st["right"], sorted(lab2(r) for r in st["req"])])
+    for i, st in enumerate(steps):
+        reqs = sorted({label(prod[r]) if r in prod else "dangling" for r in st["req"]})
+        out.append([label(i), reqs, bool(st.get("result", False))])
     return sorted(out, key=lambda x: json.dumps(x))
 
 
